@@ -333,7 +333,15 @@ fn c19_async_fleet_broadcast(case: &Case) {
         .map(|_| if simkernel::choose(3) == 0 { vec![pick(&[Outcome::Refused, Outcome::AcceptedThenClosed, Outcome::Silent, Outcome::AppError])] } else { vec![] })
         .collect();
     let max_attempts = range(1, 3) as usize;
-    let want_tags: Vec<&'static str> = all_tags.iter().copied().filter(|_| simkernel::choose(3) == 0).collect();
+    let mut want_tags: Vec<&'static str> = all_tags.iter().copied().filter(|_| simkernel::choose(3) == 0).collect();
+    // the requested tags come in any order and may repeat
+    if want_tags.len() >= 2 && simkernel::choose(2) == 0 {
+        want_tags.reverse();
+    }
+    if !want_tags.is_empty() && simkernel::choose(4) == 0 {
+        let t = want_tags[simkernel::choose(want_tags.len() as u32) as usize];
+        want_tags.push(t);
+    }
     case.sample(json!({"nodes": node_tags, "flaky": flaky.iter().map(|s| format!("{s:?}")).collect::<Vec<_>>(), "broadcast_tags": want_tags, "max_attempts": max_attempts}));
     let case = case.clone();
     aio::run(&case.clone(), 3_600, async move {
